@@ -232,6 +232,8 @@ pub fn judge(
         Ok(g) => {
             if g == exp {
                 Ok(g)
+            } else if g.last() == Some(&crate::auto::RUNAWAY) {
+                Err((exp, g, "the iterator does not stop: it yielded more than 512 matches per haystack position (C13)".to_string()))
             } else {
                 Err((exp, g, String::new()))
             }
@@ -272,6 +274,14 @@ pub fn report_mismatch(
     }
     m.insert("expected".into(), ms_json(exp));
     m.insert("got".into(), ms_json(got));
+    if got.last() == Some(&crate::auto::RUNAWAY) && prop != "C13" {
+        acc.violate(
+            "C13",
+            engine,
+            format!("{} does not terminate on haystack {:?} (patterns {}): more than 512 matches per position were yielded before the harness stopped it", method.name(), show(hay), show_pats(pats)),
+            c.clone(),
+        );
+    }
     if b.cfg.variant == Variant::Char {
         if let Ok(s) = std::str::from_utf8(hay) {
             if method == Method::Lm && got.iter().any(|m| m.1 > hay.len() || !s.is_char_boundary(m.1)) && prop != "C07" {
